@@ -90,6 +90,8 @@ type Case struct {
 	Files  []FileCase  `json:"files"`
 	// Combos are the (command, entry state) pairs the case is evaluated under; empty = all twelve.
 	Combos []Combo `json:"combos,omitempty"`
+	// Bin, when set, makes this a case of the real-binary layer (bin_test.go); the other fields except HCL are unused.
+	Bin *BinCase `json:"bin,omitempty"`
 	Class  string  `json:"class,omitempty"`
 }
 
@@ -878,6 +880,18 @@ func TestReplay(t *testing.T) {
 	var c Case
 	if err := vstat.LoadReplay(p, &c); err != nil {
 		t.Fatal(err)
+	}
+	if c.Bin != nil {
+		bin := os.Getenv("VERIF_PINT_BIN")
+		if bin == "" {
+			t.Fatalf("this case needs the real binary: VERIF_PINT_BIN is not set (run through /verif/check)")
+		}
+		out, err := runBin(bin, *c.Bin)
+		if err != nil {
+			t.Fatalf("%v\n--- config ---\n%s", err, c.Bin.hcl())
+		}
+		t.Logf("ran %v, inconclusive %v", out.ran, out.inconclusive)
+		return
 	}
 	if c.HCL == "" {
 		c.HCL = renderHCL(c.Blocks)
